@@ -451,6 +451,11 @@ def run(analysis: Analysis, tier: str) -> RuleResult:
             res.add("C18-L:" + rule, *a, **kw)
 
     c03.conformance(analysis, _L)
+    # `persistence` takes effect for every accepted combination of the other options - with or without an event
+    # callback every handled change marks the state unsaved, and stop() saves (C14-R1 / R2 as a lemma)
+    from . import c14
+
+    c14.alert_and_stop(analysis, res, "C18-L:C14-R1", "C18-L:C14-R2")
     # reconnect_timeout takes effect: it is the wait between connect attempts in all four connect loops (C20-R2)
     from . import c20
 
